@@ -1395,13 +1395,14 @@ def c15(ctx):
                           extra_lines=["1 thread:"] + t1.get(bad[0].hid, []) + ["16 threads:"] + t16.get(bad[0].hid, []))
         # stress: every thread runs every history many times at once (same operations at the same instant on different
         # hasher values): a process-wide scratch slot, cache or lock that is not per-instance shows up as a deviating transcript
-        reps = 12 if ctx.tier == "quick" else 300
-        dev, summary = C.impl_stress(impl, a, threads=16, reps=reps)
-        ctx.count("stress runs[%s]" % name, len(a) * 16 * reps)
+        reps = 12 if ctx.tier == "quick" else 60
+        sa = a if ctx.tier == "quick" else a[:3000]          # ~3 M concurrent history runs per profile in the thorough tier
+        dev, summary = C.impl_stress(impl, sa, threads=16, reps=reps)
+        ctx.count("stress runs[%s]" % name, len(sa) * 16 * reps)
         ctx.extra.setdefault("stress", {})[name] = summary
         if dev or "died" in summary:
-            hid = sorted(dev)[0] if dev else a[0].hid
-            h = next(x for x in a if x.hid == hid)
+            hid = sorted(dev)[0] if dev else sa[0].hid
+            h = next(x for x in sa if x.hid == hid)
             got, exp = dev.get(hid, ([], []))
             ctx.violation("under 16 concurrent threads (%s) a hasher's transcript deviates from its single-threaded transcript; replay: "
                           "harness stress <this script> 16 %d" % (summary, max(reps, 200)), h, impl.name,
